@@ -875,6 +875,58 @@ def route_selection(ck, rule):
             ck.ok(rule, w, "%s: %d value-route paths, each selected by method == 'repr' / scaled / n_frac is None" % (w.name, n))
 
 
+def kernels_pure(ck, rule, names=("add", "sub", "mul", "truediv", "floordiv", "mod")):
+    """C07.R9: the arithmetic kernels are expressions over the operands' codes: no augmented assignment (an in-place `a += b` neither broadcasts the left
+    operand nor leaves a possibly shared buffer alone)."""
+    prog = ck.prog
+    n = 0
+    for f, w, call in public_functions(prog):
+        if f.name not in names:
+            continue
+        for k in kernel_candidates(prog, f, call):
+            n += 1
+            aug = [x for x in ast.walk(k.node) if isinstance(x, ast.AugAssign)]
+            ck.check(not aug, rule, k, "%s combines its operands out of place" % k.name, "in-place %s" % (src(aug[0])[:60] if aug else ""), aug[0] if aug else None,
+                     "x_raw += y_raw does not broadcast x_raw: operands of different shapes raise instead of combining element-wise")
+    if n == 0:
+        raise AnalysisError("no arithmetic kernels found")
+
+
+def functions_return_results(ck, rule):
+    """C15.R7 / C20.R9: every function of functions.py that computes through a wrapper returns, on all of its non-raising paths, that wrapper's result
+    (no early return of a constant or of a stand-in), and no function returns one of its own operands as the result object."""
+    prog = ck.prog
+    w1, w2 = A.wrappers(prog)
+    n = 0
+    for f, w, call in public_functions(prog):
+        for pf in fpaths(prog, f):
+            if pf.end != "return":
+                continue
+            n += 1
+            r = peel(pf.ret)[0] if pf.ret is not None else None
+            viaw = isinstance(r, ast.Call) and prog.resolve_call(f, r) in (w1.qualname, w2.qualname)
+            if not viaw:
+                ck.bad(rule, f, "%s returns the wrapper's result on every path" % f.name, "returns %s under %s" % (src(pf.ret)[:50] if pf.ret is not None else None, [(src(g[0])[:40], g[1]) for g in pf.guards][-2:]), pf.ret_stmt,
+                       "a result that bypasses the wrapper is not sized, quantized or flagged like the others (and may be the operand itself)")
+                break
+    for q, f in sorted(prog.funcs.items()):
+        if f.module != "functions" or f.parent is not None or f.name.startswith("_"):
+            continue
+        ops_ = [p for p in f.params if p in ("x", "y", "a", "b")]
+        if not ops_:
+            continue
+        for pf in fpaths(prog, f):
+            if pf.end != "return" or pf.ret is None:
+                continue
+            r = pf.ret
+            if isinstance(r, ast.Name) and r.id in ops_:
+                ck.bad(rule, f, "%s never returns one of its operands as the result object" % f.name, "returns the parameter %s" % r.id, pf.ret_stmt,
+                       "the caller's object and the result are one: later writes to the result change the operand")
+                break
+    if n == 0:
+        raise AnalysisError("no wrapper-based function found")
+
+
 def template_sizes(ck, rule):
     """C08.R3b: with out_like= (and no out) the template alone decides signedness and sizes: both wrappers call the constructor with
     signed / n_int / n_frac / n_word all None on that path (an operand-derived signedness would override the template's)."""
